@@ -80,7 +80,7 @@ func (v c11val) token(styles []int) (string, bool) {
 	if v.AsCell != 0 {
 		st = styles[v.Style]
 		if v.Formula != "" {
-			f = hexb(v.Formula)
+			f = hexb(c11XMLText(v.Formula))
 		}
 	}
 	has, t, val, bad := "t", 0, "", "f"
@@ -90,7 +90,7 @@ func (v c11val) token(styles []int) (string, bool) {
 	case "float":
 		val = strconv.FormatFloat(v.Float, 'f', -1, 64)
 	case "str":
-		t, val = 4, v.Str
+		t, val = 4, c11XMLText(v.Str)
 	case "bool":
 		t, val = 1, map[bool]string{true: "1", false: "0"}[v.Bool]
 	case "none":
@@ -101,6 +101,21 @@ func (v c11val) token(styles []int) (string, bool) {
 		return "", false
 	}
 	return fmt.Sprintf("%d:%s:%s:%d:%s:%s", st, f, has, t, hexb(val), bad), true
+}
+
+// c11XMLText is the text as the XML layer persists it: encoding/xml replaces a character outside the XML 1.0
+// Char production (and an invalid UTF-8 byte) by U+FFFD on both the streamed and the in-memory path.  The
+// model works on persisted text; what escaping preserves is C01's subject.
+func c11XMLText(s string) string {
+	var sb strings.Builder
+	for _, r := range s {
+		ok := r == 0x09 || r == 0x0A || r == 0x0D || (r >= 0x20 && r <= 0xD7FF) || (r >= 0xE000 && r <= 0xFFFD) || (r >= 0x10000 && r <= 0x10FFFF)
+		if !ok {
+			r = 0xFFFD
+		}
+		sb.WriteRune(r)
+	}
+	return sb.String()
 }
 
 type c11hist struct {
